@@ -66,6 +66,7 @@ def check(repo, tier="quick"):
     res.rule("C18.a", "each from_ast gadget: (i) black-box language = constructor language, (ii) edges touch sub-automata only at start(in)/final(out), (iii) returned start has no incoming / final no outgoing added edge")
     res.rule("C18.b", "NFANode.add_transition inserts exactly one directed edge self -> dest")
     res.rule("C18.c", "simulation shape: follow = closure then symbol step; match_symbol unions symbol and wildcard steps over all current states and leaves the state untouched on failure; is_complete tests the final node in the closure or an end-of-sequence edge")
+    res.rule("C18.e", "(thorough tier) composition of the extracted gadgets with directed epsilon edges = reference language for every pattern tree up to 8 nodes over {a, b, ., $} (validates the gadget proof obligation of C18.a independently of known finding K1)")
     res.rule("C18.d", "implemented language (extracted construction) = reference language on the pattern corpus and on every in-repo pattern")
 
     m = repo.mod("symbol_re")
@@ -147,6 +148,8 @@ def check(repo, tier="quick"):
         elif w2 is not None:
             det = "the implemented automaton rejects %s, which the pattern matches" % list(w2)
         res.check(w1 is None and w2 is None, "C18.d", key, src, det, by="DFA equivalence over %d symbols" % len(alpha))
+    if tier == "thorough":
+        exhaustive(res, gadgets, m)
     res.floor("C18.a", 15)
     res.floor("C18.b", 4)
     res.floor("C18.c", 9)
@@ -303,3 +306,53 @@ def simulation_shape(repo, res, m):
     t = norm(init)
     ok = "NFA.from_ast(parse_regex(" in t and ("set([self.nfa.start])" in t or "{self.nfa.start}" in t)
     res.check(ok, "C18.c", "Matcher.__init__:start-state", "%s:Matcher.__init__" % m.rel, "Matcher does not start from {nfa.start} of NFA.from_ast(parse_regex(pattern))", by="cur_states = {nfa.start}")
+
+
+def _trees(n, memo={}):
+    """all pattern ASTs with exactly n nodes over leaves a, b, any, end"""
+    if n in memo:
+        return memo[n]
+    out = []
+    if n == 1:
+        out = [("sym", "a"), ("sym", "b"), ("any",), ("end",)]
+    else:
+        for t in _trees(n - 1):
+            if t[0] != "star":
+                out.append(("star", t))
+        for k in range(1, n - 1):
+            for l in _trees(k):
+                for r in _trees(n - 1 - k):
+                    out.append(("cat", l, r))
+                    if l <= r:
+                        out.append(("alt", l, r))
+    memo[n] = out
+    return out
+
+
+def _show(t):
+    k = t[0]
+    if k == "sym":
+        return t[1]
+    if k == "any":
+        return "."
+    if k == "end":
+        return "$"
+    if k == "star":
+        return "(%s)*" % _show(t[1])
+    return "(%s %s %s)" % (_show(t[1]), "|" if k == "alt" else "", _show(t[2]))
+
+
+def exhaustive(res, gadgets, m, max_nodes=8):
+    alpha = ["a", "b", "any", "end", regex.OTHER]
+    where = "%s:NFA.from_ast" % m.rel
+    for n in range(1, max_nodes + 1):
+        trees = _trees(n)
+        bad = None
+        for t in trees:
+            d_ref = regex.to_dfa(regex.build(t), alpha)
+            d_impl = regex.to_dfa(regex.build(t, gadgets, bidirectional_eps=False), alpha)
+            w1, w2 = regex.compare(d_impl, d_ref)
+            if w1 is not None or w2 is not None:
+                bad = (t, w1, w2)
+                break
+        res.check(bad is None, "C18.e", "exhaustive:trees-of-%d-nodes" % n, where, "with directed epsilon edges the extracted construction differs from the reference on `%s` (%s %s)" % (_show(bad[0]), "accepts" if bad[1] is not None else "rejects", list(bad[1] if bad[1] is not None else bad[2])) if bad else "", by="%d pattern trees, composed gadgets = reference" % len(trees))
